@@ -166,6 +166,16 @@ def run(ck, rng):
         sp = gen_spelling(rng, items, allow_heading=False, blanks=False)
         entry = rng.choice(["out-d", "out-j", "walk", "out-dry"])
         scen.append((entry, spell(items, sp), items, [], [(b"tgt", "d")], "0", None, "ok"))
+    # strict verify over many roots where everything required is present and exactly ONE stray entry exists under one
+    # root: the verdict hangs on that one finding surviving whatever the other workers do meanwhile
+    for _ in range(40 if ck.tier == "quick" else 600):
+        nroots = rng.choice([6, 12, 24, 40])
+        items = []
+        for r in range(nroots):
+            items += [(1, b"r%d" % r), (2, b"a"), (2, b"b"), (3, b"c")]
+        pre = [(b"tgt", "d")] + [(tjoin(b"tgt", p), "d") for p, k, _ in node_paths(items, [])]
+        pre.append((b"tgt/r%d/zz_stray" % rng.randrange(nroots), "d"))
+        scen.append(("verify", spell(items, plain_spelling(items)), items, [], pre, "1", None, "stray"))
     for n in (65535, 65536) * (4 if ck.tier == "quick" else 20):
         for pos in ("first", "late"):
             items = [(1, b"r%d" % r) for r in range(6)]
@@ -187,6 +197,9 @@ def run(ck, rng):
         seed = rng.choice([0, rng.randint(1, 10 ** 6), rng.randint(1, 10 ** 6), directed_delay(rng)])
         if tag == "non_uniform_blocks":
             seed = rng.randint(1, 10 ** 6)
+        if kind == "stray":
+            procs = rng.choice([2, 4, 16])
+            seed = rng.choice(["dverify.recv:300", "dverify.recv:1500", rng.randint(1, 10 ** 6), 0])
         if kind == "long":
             # the splitter's error must be reported whether the error readers are already waiting or not
             seed = rng.choice(["dherr.start:3000", "dherr.reader:3000", "dsplit.err:3000", 0, rng.randint(1, 10 ** 6)])
